@@ -91,6 +91,7 @@ class _Runtime:
         self.fname = fname
         self.k = {}
         self.range = {}
+        self.mark = {}
 
     def _range(self, it):
         from .shadow import SymRange
@@ -153,12 +154,35 @@ class _Runtime:
                 else:
                     new.pop(spec.target, None)
         spec.assume(env, k)
+        if mode == "iter":
+            from . import symtensor as _T
+
+            allowed = {v.storage.id for v in new.values() if isinstance(v, _T.SymTensor)}
+            allowed |= {st.id for st in getattr(spec, "havoced_storages", lambda: [])()}
+            self.mark[ordinal] = (len(c.events), next(_T._ids), allowed)
         return new
+
+    def frame_check(self, ordinal):
+        """soundness of the cut: every storage written in place by the body (also through callees, which the AST scan of
+        ``modifies`` cannot see) is one that was havoced at the loop head or was created inside the body"""
+        c = sym.ctx()
+        n0, watermark, allowed = self.mark[ordinal]
+        bad = sorted({f"{e[1].get('label')}#{e[1]['storage']}({e[1].get('op')})" for e in c.events[n0:]
+                      if e[0] == "inplace" and e[1]["storage"] < watermark and e[1]["storage"] not in allowed})
+        if bad:
+            raise Unsupported(f"contract-out-of-date: loop {ordinal} of {self.fname} writes in place to state the loop contract does not havoc: {bad[:6]}")
+
+    def after_break(self, ordinal, env):
+        self.frame_check(ordinal)
+        hook = getattr(self.specs[ordinal], "on_break", None)
+        if hook is not None:
+            hook(dict(env))
 
     def close(self, ordinal, env):
         spec = self.specs[ordinal]
         c = sym.ctx()
         k = self.k[ordinal]
+        self.frame_check(ordinal)
         spec.before_close(dict(env), k)
         for name, goal in spec.invariant(dict(env), k + 1):
             c.prove(f"{self.fname}/loop{ordinal}/preserve/{name}", goal, kind="loop-preserve")
@@ -221,6 +245,7 @@ def cut(func, specs: Dict[int, LoopSpec], name: str = None):
                 body=self._visit_body(node.body),
                 orelse=[ast.Expr(ast.Call(lc("close"), [K, loc], []))])
             mode_if_body.append(once)
+            mode_if_body.append(ast.Expr(ast.Call(lc("after_break"), [K, loc], [])))  # reached only through a break in the body
             stmts.append(ast.If(ast.Call(lc("enter"), enter_args, []), mode_if_body, mode_else_body))
             return stmts
 
